@@ -161,7 +161,10 @@ def restricted_number_type(
             raise ValueError(f"{v} not a number")
         if cls._type == int and isinstance(v, float) and not float.is_integer(v):
             raise ValueError(f"{v} not an integer")
-        vv = cls._type(v)
+        try:
+            vv = cls._type(v)
+        except OverflowError as ex:
+            raise ValueError(f"{v} not representable as {cls._type.__name__}: {ex}") from ex
         check = [comparison(vv, ref) for comparison, ref in cls._restrictions]
         if (cls._join == "and" and not all(check)) or (cls._join == "or" and not any(check)):
             raise ValueError(f"{v} does not conform to restriction {cls._expression}")
